@@ -23,8 +23,15 @@ impl M2CompQuat {
         let z = reader.read_i16_le()?;
         let w = reader.read_i16_le()?;
 
-        // Negate X component to match Python reference implementation
-        Ok(Self { x: -x, y, z, w })
+        // Negate X component to match Python reference implementation.
+        // The value comes from the file: i16::MIN has no positive counterpart, so the
+        // negation saturates instead of overflowing.
+        Ok(Self {
+            x: x.saturating_neg(),
+            y,
+            z,
+            w,
+        })
     }
 
     /// Write a compressed quaternion to a writer
